@@ -203,7 +203,10 @@ class Exec(ExprMixin, CallMixin):
             if val is None:
                 val = none_sv()
             try:
-                res = coerce(val, rt) if not isinstance(rt, T._None) else val
+                if isinstance(rt, T._Opaque):
+                    res = SV(T.Opaque, z3.IntVal(0))       # the contract does not speak about the returned value
+                else:
+                    res = coerce(val, rt) if not isinstance(rt, T._None) else val
             except Unsupported as e:
                 raise ContractError('%s: return value of type %s does not fit declared %s' % (c.name, val.t, rt))
             env = {k: v for k, v in self.entry.locals.items() if v is not None}   # parameters denote entry values
@@ -574,6 +577,9 @@ class Exec(ExprMixin, CallMixin):
                 self.call_contract(m, [obj, idx, v], {}, st, None)
             else:
                 self.list_setitem(obj, idx, v, st)
+        elif self.dictview(obj) is not None:
+            self.nonnull(obj, st, 'subscript')
+            self.dict_set(self.dictview(obj), idx, v, st)
         else:
             raise Unsupported('item store on %s' % obj.t)
 
@@ -880,7 +886,7 @@ class Exec(ExprMixin, CallMixin):
             full = self.full_key(k)
             if full is None:
                 continue
-            st.seth(full, z3.Const(fresh_name('H_' + '_'.join(str(x) for x in self.eng.hkey(full)[:2])), self.eng.heap_sort(full)))
+            st.seth(full, z3.Const(fresh_name(('H_' + '_'.join(str(x) for x in self.eng.hkey(full)[:2])).replace('|', '.')), self.eng.heap_sort(full)))
             fresh_keys.append(full)
             if full[0] == 'len':
                 r_ = z3.Int(fresh_name('r'))
@@ -1061,8 +1067,12 @@ class Exec(ExprMixin, CallMixin):
         if isinstance(it, ast.Call) and isinstance(it.func, ast.Name) and it.func.id == 'range':
             args = [self.ev(a, st) for a in it.args]
             lo, hi = (I(0), args[0].z) if len(args) == 1 else (args[0].z, args[1].z)
+            stepv = 1
             if len(args) == 3:
-                raise Unsupported('range step')
+                sz = z3.simplify(args[2].z)
+                if not z3.is_int_value(sz) or sz.as_long() == 0:
+                    raise Unsupported('range step must be a non-zero constant')
+                stepv = sz.as_long()
             st.locals[idx] = SV(T.Int, lo)
             hi_sv = SV(T.Int, hi)
 
@@ -1072,12 +1082,12 @@ class Exec(ExprMixin, CallMixin):
             def cond(cur):
                 i = cur.locals[idx].z
                 self._body_prep = lambda b: self.assign(s.target, SV(T.Int, i), b)
-                return i < hi
+                return i < hi if stepv > 0 else i > hi
 
             def step(cur):
-                cur.locals[idx] = SV(T.Int, cur.locals[idx].z + 1)
+                cur.locals[idx] = SV(T.Int, cur.locals[idx].z + stepv)
 
-            if lc.inv is not None:
+            if lc.inv is not None and stepv > 0:
                 lc = self._with_bounds(lc, '%s <= %s' % ('0' if len(args) == 1 else ast.unparse(it.args[0]), iname))
             return self.run_loop(s, st, lambda st0: envf, cond, step, ordn, lc)
 
@@ -1094,12 +1104,10 @@ class Exec(ExprMixin, CallMixin):
             copied = True
         else:
             copied = False
-        if isinstance(inner, ast.Call) and isinstance(inner.func, ast.Attribute) and inner.func.attr in ('items', 'values', 'keys') \
-                and not inner.args:
-            d = self.ev(inner.func.value, st)
-            if isinstance(d.t, T.Dict):
-                self.nonnull(d, st)
-                dict_mode = inner.func.attr
+        ds = self.dict_iter_source(inner, st)
+        if ds is not None:
+            d, dict_mode = ds
+            if True:
                 snapshot = self.dict_snapshot(d, dict_mode, st)
                 if not copied:
                     self.eng.notes.append('%s loop %d iterates a live dict view; mutation during iteration is not modelled' % (self.c.name, ordn))
@@ -1351,7 +1359,7 @@ class Exec(ExprMixin, CallMixin):
         for m in c.modifies:
             for key in self.mod_keys(m, st):
                 before = st.h(key)
-                nv = z3.Const(fresh_name('H_' + '_'.join(str(x) for x in eng.hkey(key)[:2])), eng.heap_sort(key))
+                nv = z3.Const(fresh_name(('H_' + '_'.join(str(x) for x in eng.hkey(key)[:2])).replace('|', '.')), eng.heap_sort(key))
                 if key[0] == 'len':
                     r_ = z3.Int(fresh_name('r'))
                     st.assume(z3.ForAll([r_], z3.Select(nv, r_) >= 0))
